@@ -60,7 +60,14 @@ func NewIntItem(byteSize int, values ...any) Item {
 			return item
 		}
 
-		item.size = int32(len(item.values))
+		if len(item.values) > MaxByteSize {
+			// reject before the count is narrowed to int32: 2^31 and more values would wrap
+			item.setErrorMsg("item size limit exceeded")
+
+			return item
+		}
+
+		item.size = int32(len(item.values)) //nolint:gosec // bounded by MaxByteSize above
 		if item.size == 1 {
 			item.scalar = item.values[0]
 			item.values = nil
